@@ -106,3 +106,30 @@ package mask
 //@     pure
 //@   callee Itoa(i) (r)
 //@     pure
+
+// processMask (C17: "the matched secret never leaves the host"): masks are applied
+// one after another to the same working copy.  The node's original value is
+// copied into the working buffer only before any mask has rewritten it - never
+// again afterwards, whatever the rewritten value looks like (an empty value after
+// a cut included): otherwise a later mask would resurrect what an earlier one hid.
+
+//@ func (*Plugin).processMask
+//@   option allow-exit yes
+//@   ghost nrewritten int = 0
+//@   requires len(p.hasMasksIgnoreFields) == len(p.config.Masks) && len(p.hasMasksProcessFields) == len(p.config.Masks) && len(p.maskApplyCount) == len(p.config.Masks)
+//@   requires forall k :: 0 <= k && k < len(p.config.Masks) ==> p.config.Masks[k].Re_ != nil && (p.config.Masks[k].mode == modeMask || p.config.Masks[k].mode == modeReplace || p.config.Masks[k].mode == modeCut)
+//@   loop 1 invariant nrewritten >= 0 && (nrewritten > 0 ==> valueCopied) && len(p.hasMasksIgnoreFields) == len(p.config.Masks) && len(p.hasMasksProcessFields) == len(p.config.Masks) && len(p.maskApplyCount) == len(p.config.Masks)
+//@   loop 1 invariant forall k :: 0 <= k && k < len(p.config.Masks) ==> p.config.Masks[k].Re_ != nil && (p.config.Masks[k].mode == modeMask || p.config.Masks[k].mode == modeReplace || p.config.Masks[k].mode == modeCut)
+//@   assume at "mask.maskValue(" allrange(mask.Groups, 0, uf_nsub(mask.Re_) + 1)
+//@   assert at "p.sourceBuf = append(p.sourceBuf[:0], value...)" nrewritten == 0
+//@   setat "p.sourceBuf = append(p.sourceBuf[:0], p.maskBuf...)" nrewritten := nrewritten + 1
+//@   callee maskValue(v, b) (r, ok)
+//@     preserves Plugin, Mask, []bool, int, []int
+//@   callee checkMatchRules(v) (r)
+//@     preserves Plugin, Mask, []bool, int, []int
+//@   callee AsBytes() (r)
+//@     pure
+//@   callee AddFieldNoAlloc(r, n) (x)
+//@     preserves Plugin, Mask, []bool, int, []int
+//@   callee MutateToString(s) (x)
+//@     preserves Plugin, Mask, []bool, int, []int
